@@ -58,6 +58,7 @@ class UnitResult:
         self.probe_ok = None
         self.probe_missing = []
         self.uncompilable = {}  # extracted fn -> compile error messages
+        self.unstable = []      # thorough tier: obligations whose verdict differs between z3 seeds
         self.text_path = None
 
 
@@ -137,7 +138,9 @@ def run_unit(unit, ext, tier="quick", seed=0, keep=True, _drop_hints=()):
             r2 = UnitResult(unit)
             _collect(r2, extra_res, meta, tl)
             for fn in set(r2.failed) ^ set(r.failed):
-                r.undecided.append(f"unstable across z3 seeds: {fn}")
+                # an obligation that flips between solver seeds is a brittle proof, reported but not a verdict:
+                # the deciding run is the default-seed run above
+                r.unstable.append(fn)
             r.wall += extra_res.get("wall_s", 0)
     # probes: every function with a requires must FAIL its `assert(false)`
     if pmeta["probes"]:
